@@ -130,6 +130,24 @@ theorem noinherit_sets_everything (s : Text) (a : Attrs) (hn : (findSub? "noinhe
     (h : parseStyleStr G gsp s = some a) : Concrete a :=
   parseStyleStr_noinherit_concrete G (by rw [gen_defaultAttrs]; simp [Concrete]) gsp s a hn h
 
+/-- **C19-ae''.**  'noinherit' is position independent: strings containing it whose other words agree (in
+    order) parse alike, and the result is `DEFAULT_ATTRS` overlaid by exactly what the words set —
+    the word never wipes attributes named before it in the same string. -/
+theorem noinherit_position_independent (s1 s2 : Text)
+    (h1 : (findSub? "noinherit".toList s1).isSome = true) (h2 : (findSub? "noinherit".toList s2).isSome = true)
+    (hw : (splitWs gsp s1).filter (· ≠ kwNoinherit) = (splitWs gsp s2).filter (· ≠ kwNoinherit)) :
+    parseStyleStr G gsp s1 = parseStyleStr G gsp s2 ∧
+    parseStyleStr G gsp s1 = (parseParts G G.emptyAttrs (splitWs gsp s1)).map (overlay G.defaultAttrs) :=
+  ⟨parseStyleStr_noinherit_position G gsp s1 s2 h1 h2 hw,
+   parseStyleStr_noinherit_is_overlay G gen_emptyAttrs gsp s1 h1⟩
+
+/-- non-vacuity (the seeded scenario): 'bold #ff0000 noinherit' = 'noinherit bold #ff0000' = bold + ff0000 -/
+example : parseStyleStr G gsp "bold #ff0000 noinherit".toList = parseStyleStr G gsp "noinherit bold #ff0000".toList ∧
+    parseStyleStr G gsp "bold noinherit #ff0000 noinherit".toList =
+      some { G.defaultAttrs with bold := some true, color := some "ff0000".toList } ∧
+    (splitWs gsp "bold #ff0000 noinherit".toList).filter (· ≠ kwNoinherit) =
+      (splitWs gsp "noinherit bold #ff0000".toList).filter (· ≠ kwNoinherit) := by decide +kernel
+
 example : parsePart G G.emptyAttrs "[SetCursorPosition]".toList = some G.emptyAttrs ∧
     parseStyleStr G gsp "noinherit bold".toList = some { G.defaultAttrs with bold := some true } := by
   decide +kernel
